@@ -204,7 +204,7 @@ fn boundary_amounts(thorough: bool) -> Vec<Dec> {
 pub fn main(tier: Option<&str>) {
     let run = Run::new("C16", "exploration", tier);
     run.rule(
-        "strings: every string of length <= N over the alphabet {0,1,9,.,_,x,+,-,space,a,b,o} plus the structured family \
+        "strings: every string of length <= N over the alphabet {0,1,9,.,_,x,+,-,space,a,b,o} plus one non-ASCII character (2, 3, 4 bytes wide; Arabic-Indic and full-width digit one) at every position of whole parts <= 30 and fractions <= 40 digits, plus the structured family \
          d{1..78}[.d{0..20}] with digits in {0,1,9}, and fractions of every length 1..=600 (significant digit last / in the middle / all nines) after a small and a maximal whole part; amounts: {1,9,10}*10^k+-1, 2^k+-1, MAX, MAX-1, single fraction digits; \
          pairs: all ordered pairs of the boundary set for checked_add/checked_sub. A string case is non-trivial when it is \
          decimal-shaped (digits with at most one '.'); every amount and pair is non-trivial.",
@@ -223,6 +223,29 @@ pub fn main(tier: Option<&str>) {
     });
     run.extra("short_strings", json!({"alphabet": alphabet, "max_len": n, "count": cnt}));
     run.sample(json!({"from_str": "0x1.9"}));
+
+    // 1b. one character that is not an ASCII digit — two, three and four bytes wide, and a non-ASCII decimal digit — at every
+    //     position of the whole part (<= 30 digits) and of the fraction (<= 40 digits): all "the rest", to be rejected with an
+    //     error wherever the parser happens to cut its input
+    let mut wide = 0u64;
+    for ch in ["\u{e9}", "\u{20ac}", "\u{1f600}", "\u{661}", "\u{ff11}"] {
+        for units_len in [1usize, 2, 30] {
+            for pos in 0..units_len {
+                let units: String = (0..units_len).map(|i| if i == pos { ch.to_string() } else { "1".to_string() }).collect();
+                check_parse(&run, &units);
+                check_parse(&run, &format!("{units}.5"));
+                wide += 2;
+            }
+            for frac_len in 1..=40usize {
+                for pos in 0..frac_len {
+                    let frac: String = (0..frac_len).map(|i| if i == pos { ch.to_string() } else { "1".to_string() }).collect();
+                    check_parse(&run, &format!("{}.{frac}", "1".repeat(units_len)));
+                    wide += 1;
+                }
+            }
+        }
+    }
+    run.extra("non_ascii_strings", json!({"count": wide}));
 
     // 2. structured family: units of 1..=78 digits, optional fraction of 0..=20 digits
     let digit_sets: &[&str] = if run.quick() { &["1", "9", "0"] } else { &["1", "9", "0", "19", "90"] };
